@@ -75,6 +75,7 @@ FAMILIES = {
     "C42": ["catchsched"],
     "C09": ["guard"],
     "C30": ["tramp"],
+    "C35": ["periodic"],
     "C08": ["opacity"],
     "C05": ["op"],
     "C06": ["op"],
@@ -108,6 +109,8 @@ def units_for(prop, tier):
         us += forward_units(prop)
     if "class" in fams:
         us += class_units(prop)
+    if "periodic" in fams:
+        us.append({"runner": "periodic", "prop": prop, "id": "reactivex/scheduler/periodicscheduler.py::PeriodicScheduler.schedule_periodic"})
     if "tramp" in fams:
         us.append({"runner": "tramp", "prop": prop, "id": "reactivex/scheduler/trampoline.py::Trampoline"})
     if "opacity" in fams:
